@@ -4,6 +4,10 @@ import ast
 from fractions import Fraction
 
 
+_STRING_CONSTS = {"ascii_uppercase": "ABCDEFGHIJKLMNOPQRSTUVWXYZ", "ascii_lowercase": "abcdefghijklmnopqrstuvwxyz", "digits": "0123456789",
+                  "ascii_letters": "abcdefghijklmnopqrstuvwxyzABCDEFGHIJKLMNOPQRSTUVWXYZ", "hexdigits": "0123456789abcdefABCDEF", "octdigits": "01234567"}
+
+
 class NotConst(Exception):
     pass
 
@@ -191,6 +195,17 @@ class Folder:
             if isinstance(node.value, ast.Name) and node.value.id == "re" and node.attr in _RE_FLAGS:
                 import re as _re
                 return int(getattr(_re, node.attr))
+            if isinstance(node.value, ast.Name) and node.attr in _STRING_CONSTS:
+                # string.ascii_uppercase etc.: fixed by the language (the name must be the imported stdlib module)
+                r_ = None
+                try:
+                    r_ = self.prog.resolve(mod, node.value.id)
+                except Exception:
+                    r_ = None
+                if r_ is not None and r_[0] in ("ext", "import", "module") and (str(r_[1]) == "string" or str(r_[1]).endswith(".string") or str(r_[1]) == "string." ):
+                    return _STRING_CONSTS[node.attr]
+                if r_ is not None and r_[0] == "ext" and "string" in str(r_[1:]):
+                    return _STRING_CONSTS[node.attr]
             # Enum member: Cls.MEMBER
             if isinstance(node.value, ast.Name):
                 try:
